@@ -170,7 +170,7 @@ def conditions(tier):
             conds.append(Cond('fault_%s_b%d' % (nm, k), 's: str', fault_pre(sk), "body_fault(s, 'S', %d)" % idx,
                               timeout=T, smoke=[dict(s=sk.replace('?', '7').replace('!', c)) for c in '{}$x'],
                               descr='base %r, free character inserted at boundary %d' % (base, k)))
-            if not quick:
+            if not quick and k % 3 == 0:
                 for j, f in enumerate(MULTI_FAULTS):
                     fs = sk.replace('!', f)
                     pre = ['len(s) == %d' % len(fs)] + [
@@ -192,7 +192,7 @@ META = dict(
                       'context; 19 pinned skeletons with 2-4 free one-character holes; a free character inserted at every '
                       'fourth token boundary of 19 well-formed base documents (holes = any digit)',
                 thorough='length <= 4 (CTX_S, CTX_SU), <= 3 default context; all 51 skeletons; every token boundary of the 19 '
-                         'base documents with a free character and with each of 7 multi-character structural tokens'),
+                         'base documents with a free character, every third boundary with each of 7 multi-character structural tokens'),
     stubs=['logging disabled', 'step budget on LatexTokenReader.peek_token (non-termination is reported as violation)'],
     outside=['documents outside the listed skeletons and longer than the free-string bound', 'random token soups',
              'fault injection into documents other than the 19 base documents'],
